@@ -46,6 +46,8 @@ CONSTANTS
                    \* | "mangle32" (only the first 32 '/' of a command line are turned into '.')
     CopyMode,      \* "content": a persisted raw file is a copy of the content (specified) | "preserve": the
                    \* object is copied as it is, so a path that ends in a symlink is persisted as a symlink
+    CollectOrder,  \* insights.collect.collect(): "configs-then-denylist" (specified: the deny list is applied after
+                   \* the manifest's component configuration) | "denylist-then-configs"
     DenyFactories, \* factories explored by the DenyList sub-model
     DenyMax        \* entries per deny list
 
@@ -304,14 +306,24 @@ SaveAsForms(f) ==
 
 Picks(f) == IF f \in SingleItem THEN {1, 2, 3} ELSE {1}
 DCase(f, pk, fe, ce, sa) == [factory |-> f, comp |-> "", pick |-> pk, files |-> fe, commands |-> ce, comps |-> {},
-                            saveas |-> sa]
+                            saveas |-> sa, entry |-> "apply"]
+(* entry: "apply"   = apply_blacklist(cfg), then the datasource is evaluated;                      *)
+(*        "collect" = the collection entry point collect(manifest, rm_conf = cfg): the manifest     *)
+(*                    disables every component by default and enables a prefix covering the spec,  *)
+(*                    the deny list must still win.                                                *)
 DenyCases ==
     UNION { { DCase(f, pk, fe, {}, "none") : fe \in Upto(FileEntries(f)), pk \in Picks(f) }
                 : f \in DenyFactories \cap FileFactories } \cup
     UNION { { DCase(f, pk, {}, ce, "none") : ce \in Upto(CmdEntries(f)), pk \in Picks(f) }
                 : f \in DenyFactories \ FileFactories } \cup
     UNION { { DCase(f, pk, {}, {}, sa) : sa \in SaveAsForms(f), pk \in Picks(f) } : f \in DenyFactories } \cup
-    UNION { { [factory |-> "spec", comp |-> n, pick |-> 1, files |-> fe, commands |-> ce, comps |-> cs, saveas |-> "none"]
+    UNION { { [factory |-> "spec", comp |-> n, pick |-> 1, files |-> fe, commands |-> ce, comps |-> cs, saveas |-> "none",
+               entry |-> "collect"]
+        : fe \in Tiny({<<n>>, SpecItem(n).w}), ce \in Tiny({<<n>>, SpecItem(n).w, <<OtherSpec(n)>>}),
+          cs \in Tiny({FullName(n), FullName(OtherSpec(n))}) }
+        : n \in (IF DenyFactories = {} THEN {} ELSE KnownSpecs) } \cup
+    UNION { { [factory |-> "spec", comp |-> n, pick |-> 1, files |-> fe, commands |-> ce, comps |-> cs, saveas |-> "none",
+               entry |-> "apply"]
         : fe \in Tiny({<<n>>, <<OtherSpec(n)>>, SpecItem(n).w, <<"/etc/fstab">>, <<"nosuchspec">>}),
           ce \in Tiny({<<n>>, <<OtherSpec(n)>>, SpecItem(n).w, <<"/bin">>}),
           cs \in Tiny({FullName(n), FullName(OtherSpec(n)), "insights.nosuch.component"}) }
@@ -401,8 +413,11 @@ InitDeny ==
 
 Configure ==
     /\ sub = "deny" /\ dn.phase = "cfg"
-    /\ dn' = [dn EXCEPT !.phase = "run",
-                        !.tr = Translate([files |-> dn.c.files, commands |-> dn.c.commands, comps |-> dn.c.comps])]
+    /\ LET tr == Translate([files |-> dn.c.files, commands |-> dn.c.commands, comps |-> dn.c.comps])
+           \* collect(): apply_default_enabled + apply_configs (the manifest enables the spec) and apply_blacklist;
+           \* whichever runs last decides whether the component is enabled
+           en == IF dn.c.entry = "collect" /\ CollectOrder = "denylist-then-configs" THEN {dn.c.comp} ELSE {}
+       IN dn' = [dn EXCEPT !.phase = "run", !.tr = [tr EXCEPT !.disabled = @ \ en]]
     /\ UNCHANGED <<sub, lay, path, w, yielded, written>>
 
 Attempt ==
